@@ -2,8 +2,10 @@
   JdProofs.EqualsSet — property C04, SET / MULTISET / SetKeys part (the `_partial` statement).
 
   In the set modes `Equals` compares 64-bit FNV hash codes of array nodes. The full statement
-  "Equals = advertised equivalence" is FALSE there (known findings KF-C04-alias: the hash pre-image
-  encoding is not domain separated, KF-C04-negzero: `0` and `-0`). What is proved here:
+  "Equals = advertised equivalence" is FALSE there (known finding KF-C04-alias: the hash pre-image
+  encoding is not domain separated; the former KF-C04-negzero, `0` and `-0`, was repaired in the Go
+  code: they now hash alike — the hypothesis `noNegZero` below is kept and is now stronger than
+  necessary). What is proved here:
 
     OUTSIDE those aliases and FNV collisions, i.e. when among the finitely many sub-terms at hand
     equal hash codes occur only for equivalent nodes (`HashFaithful`), and when no `-0` occurs,
@@ -13,7 +15,10 @@
   The converse direction of `HashFaithful` (equivalent nodes have equal hash codes) is PROVED
   (`equivB_hash`): it rests on the canonical-form lemmas `hsort_eq_of_perm` /
   `hsort_hdedup_ext` (the sorted hash list depends only on the bag / on the set of hash codes),
-  which in turn need that the sort key `bswap` is injective (`bswap_inj`, proved).
+  which in turn need that the sort key `bswap` is injective (`bswap_inj`, proved in JdProofs.Common).
+  Declarations shared with other proof modules (`bswap_inj`, `hinsert_perm`, `hsort_perm`,
+  `mem_hdedup`, `hashList_eq_map`, `negZeroBits`, `Json.noNegZero`, `FloatEq0`, `alookup_rawDoc`)
+  live in JdProofs.Common.
 
   Explicit hypotheses and why (all are needed, see the comments at the theorems):
     * `dispatchTag o = .set` / `.mset`   the reading; SetKeys dispatches to `.set`;
@@ -31,7 +36,8 @@ import JdProofs.Common
 namespace Jd
 open Jd.Spec
 
-/-! ### 0. the sort key `bswap` is injective -/
+/-! ### 0. the sort key `bswap` reverses the base-256 digits
+  (`bswap_inj` itself is in JdProofs.Common, proved there from `bswap_bswap`) -/
 
 theorem ofLe8_step_toNat (acc : UInt64) (c : UInt8) :
     ((acc <<< 8) ||| c.toUInt64).toNat = (acc.toNat % 2 ^ 56) * 256 + c.toNat := by
